@@ -181,6 +181,11 @@ def classify(ctx, anomaly, sc, obs):
     # 8. StreamItemQueue.abort after a producer failure returns before the producer's cleanup finished
     if a.startswith("hook-early:source-still-closing:streamed:") and kind in ("abort", "abort_initial"):
         return "stream-abort-after-producer-failure:returns-before-producer-cleanup"
+    # 4 again, reached without a consumer stop: when every delivery group has failed the payload stream ends regularly and
+    #    the generator's `finally` runs the same WorkQueue.cancel / cancel_incremental_work, which request the
+    #    cancellation of the sibling computations that are still running and do not await them
+    if kind == "none" and obs.get("errors_seen") and a.startswith("hook-early:resolver-running:depth-") and not a.endswith("depth-0"):
+        return "workqueue-cancel:hook-before-resolvers-unwound"
     if stopped:
         # 4. WorkQueue.cancel requests the cancellation of computations / items but does not await them
         if a.startswith("hook-early:resolver-running:depth-") and not a.endswith("depth-0"):
